@@ -93,7 +93,8 @@ class C15(Prop):
             yield Case('roundtrip', ('pickle_append', rng.choice(['path', 'mem']),
                                      gen.freeze(gen.table(rng, maxrows=3, ragged=True)),
                                      gen.freeze(gen.table(rng, maxrows=3, ragged=True))))
-            jt = (('a', 'b', 'c'),) + tuple((rng.choice(NASTY), rng.choice([1, 2.5, None, True, 'x']), rng.choice([None, 0, 'é']))
+            jt = (('a', 'b', 'c'),) + tuple((rng.choice(NASTY + ['\ud800x', 'a\udfff']), rng.choice([1, 2.5, None, True, 'x']),
+                                             rng.choice([None, 0, 'é']))
                                             for _ in range(rng.choice([1, 2, 4])))
             yield Case('roundtrip', ('json', rng.choice(['path', 'gz', 'mem']), rng.random() < 0.5, jt))
             yield Case('roundtrip', ('jsonarrays', rng.choice(['path', 'mem']), jt))
